@@ -1,5 +1,6 @@
 //! C13 — HpoSet filters, replacements and aggregates are exact.
 
+use super::common::{build_path, expected_facts, PathSel};
 use crate::build::*;
 use crate::gen::{self, pick, GenCfg, NameMode};
 use crate::model::*;
@@ -21,6 +22,13 @@ pub struct C13;
 pub struct Case {
     pub facts: Facts,
     pub members: Vec<u32>,
+    /// how the ontology is constructed (default: own v3 bytes)
+    #[serde(default = "default_path")]
+    pub path: PathSel,
+}
+
+pub fn default_path() -> PathSel {
+    PathSel::Bin(3)
 }
 
 fn set_ids(s: &HpoSet) -> Result<Vec<u32>, String> {
@@ -41,11 +49,12 @@ fn cmp_set(s: &HpoSet, want: &BTreeSet<u32>, what: &str) -> CheckResult {
 }
 
 pub fn check(c: &Case, stats: &mut Stats) -> CheckResult {
-    let ont = match via_binary(&c.facts, 3) {
+    let ont = match build_path(&c.facts, c.path, &JaxNoise::default()) {
         Ok(o) => o,
-        Err(e) => return fail("construct/bin-v3", e),
+        Err(e) => return fail(format!("construct/{}", c.path.name()), e),
     };
-    let m = Model::new(&c.facts);
+    let m = Model::new(&expected_facts(&c.facts, c.path));
+    stats.count(&format!("path:{}", c.path.name()), 1);
     let members: BTreeSet<u32> = c.members.iter().copied().collect();
     ensure!(members.iter().all(|t| m.has(*t)), "harness/bad-case", "members must be terms");
     let mods = m.default_modifier().unwrap_or_default();
@@ -157,14 +166,15 @@ fn strategy(tier: Tier) -> BoxedStrategy<Case> {
     let cfg = GenCfg::small().terms(2, max).recs(6).standard().with_flags(false).names(NameMode::Plain);
     // large sets: more members than an id group stores inline (30)
     let big = GenCfg::small().terms(44, 72).recs(3).standard().with_flags(false).names(NameMode::Plain);
-    let mk = |(facts, picks): (Facts, Vec<u16>)| {
+    let mk = |(facts, picks, path): (Facts, Vec<u16>, PathSel)| {
         let ids: Vec<u32> = facts.terms.iter().map(|t| t.id).collect();
         let members = picks.iter().map(|p| ids[pick(*p, ids.len())]).collect();
-        Case { facts, members }
+        Case { facts, members, path }
     };
+    let paths = || prop_oneof![6 => Just(PathSel::Bin(3)), 2 => Just(PathSel::Bin(2)), 1 => Just(PathSel::Bin(1)), 2 => Just(PathSel::Jax), 1 => Just(PathSel::RoundTrip), 1 => Just(PathSel::BuilderDefaults)];
     prop_oneof![
-        12 => (gen::facts(cfg), vec(any::<u16>(), 0..12)).prop_map(mk),
-        1 => (gen::facts(big), vec(any::<u16>(), 30..90)).prop_map(mk),
+        12 => (gen::facts(cfg), vec(any::<u16>(), 0..12), paths()).prop_map(mk),
+        1 => (gen::facts(big), vec(any::<u16>(), 30..90), paths()).prop_map(mk),
     ]
     .boxed()
 }
@@ -174,15 +184,15 @@ impl Property for C13 {
         "C13"
     }
     fn rule(&self) -> String {
-        "Generated: ontologies (own v3 bytes, so categories and modifier roots are defined) with obsolete terms, replacements pointing to existing terms (members, non-members, the term itself), modifier branches and records of all kinds; member sets of 0-12 terms drawn with repetition (empty sets, ancestors together with descendants), one case in 13 with 44-72 terms and 30-90 picks (more than the 30 members an id group stores inline). Oracle on the reference model: child_nodes = members without a member among their descendants; without_modifier/remove_modifier drop exactly members that are or descend from a modifier root; without_obsolete/remove_obsolete drop exactly flagged members; with_replaced_obsolete/replace_obsolete map exactly the members naming a replacement (collisions shrink the set); gene/omim/orpha id sets = unions over members; categories() = per-category member counts; information_content gene/omim = -ln(|union|/N) (0 rule; 1e-5); each in-place method equals its copying twin; len/is_empty/contains/get/iter/Extend agree with the member set; copying methods leave the set untouched. evaluations = set operations. Non-trivial = set contains an ancestor/descendant pair, an obsolete and a replaced member; distinct by hash of the case.".into()
+        "Generated: ontologies (built with defaults through own v1/v2/v3 bytes, as_bytes round trip, JAX files or the Builder, so categories and modifier roots are defined) with obsolete terms, replacements pointing to existing terms (members, non-members, the term itself), modifier branches and records of all kinds; member sets of 0-12 terms drawn with repetition (empty sets, ancestors together with descendants), one case in 13 with 44-72 terms and 30-90 picks (more than the 30 members an id group stores inline). Oracle on the reference model: child_nodes = members without a member among their descendants; without_modifier/remove_modifier drop exactly members that are or descend from a modifier root; without_obsolete/remove_obsolete drop exactly flagged members; with_replaced_obsolete/replace_obsolete map exactly the members naming a replacement (collisions shrink the set); gene/omim/orpha id sets = unions over members; categories() = per-category member counts; information_content gene/omim = -ln(|union|/N) (0 rule; 1e-5); each in-place method equals its copying twin; len/is_empty/contains/get/iter/Extend agree with the member set; copying methods leave the set untouched. evaluations = set operations. Non-trivial = set contains an ancestor/descendant pair, an obsolete and a replaced member; distinct by hash of the case.".into()
     }
     fn assumptions(&self) -> Vec<String> {
         vec!["replacements name existing terms (a set holding an id that is not a term is outside the documented domain of HpoSet)".into()]
     }
     fn cases(&self, tier: Tier) -> u64 {
         match tier {
-            Tier::Quick => 200_000,
-            Tier::Thorough => 2_000_000,
+            Tier::Quick => 120_000,
+            Tier::Thorough => 1_200_000,
         }
     }
     fn required_labels(&self, _tier: Tier) -> Vec<&'static str> {
